@@ -38,6 +38,16 @@ class RProbe(core.Probe):
         self.count += 1
         raise ValueError('deliberate failure %d' % cid)
 
+    @replicated
+    def fail3(self, cid, a, b):
+        self.count += 1
+        raise KeyError((cid, a, b))
+
+    @replicated
+    def failkw(self, cid=None, note=None):
+        self.count += 1
+        raise RuntimeError('deliberate failure %r %r' % (cid, note))
+
     def full_state(self):
         return (self.count, self.chain, list(self.lst.rawData()), sorted(self.st.rawData()))
 
@@ -50,7 +60,7 @@ class RSim(cluster.Sim):
         return False
 
 
-KINDS = ['append', 'fail', 'l_append', 'l_remove', 'l_pop', 's_add', 's_remove', 'break', 'restart']
+KINDS = ['append', 'fail', 'l_append', 'l_remove', 'l_pop', 's_add', 's_remove', 'break', 'restart', 'fail3', 'failkw', 'l_set', 'l_popdefault']
 
 
 def strategy(tier):
@@ -73,15 +83,17 @@ class Model(object):
             if kind == 'append':
                 self.chain = core.fold_hash(self.chain, 'append', args[0], args[1])
                 self.count += 1
-            elif kind == 'fail':
+            elif kind in ('fail', 'fail3', 'failkw'):
                 self.count += 1
                 raise ValueError()
+            elif kind == 'l_set':
+                self.lst[args[0]] = args[1]
             elif kind == 'l_append':
                 self.lst.append(args[0])
             elif kind == 'l_remove':
                 self.lst.remove(args[0])
             elif kind == 'l_pop':
-                self.lst.pop(args[0])
+                self.lst.pop(*args)
             elif kind == 's_add':
                 self.st.add(args[0])
             elif kind == 's_remove':
@@ -89,7 +101,7 @@ class Model(object):
             else:
                 raise runner.HarnessError('unknown command kind %r' % (kind,))
             return False
-        except (ValueError, KeyError, IndexError):
+        except (ValueError, KeyError, IndexError, RuntimeError):
             return True
 
     def state(self):
@@ -140,6 +152,14 @@ def run_case(case):
                 f = lambda: obj.append(cid, b'', callback=cb)
             elif kind == 'fail':
                 f = lambda: obj.fail(cid, callback=cb)
+            elif kind == 'fail3':
+                f = lambda: obj.fail3(cid, x, 'b', callback=cb)
+            elif kind == 'failkw':
+                f = lambda: obj.failkw(cid=cid, note=x, callback=cb)
+            elif kind == 'l_set':
+                f = lambda: obj.lst.set(x + 3, cid, callback=cb)
+            elif kind == 'l_popdefault':
+                f = lambda: obj.lst.pop(callback=cb)
             elif kind == 'l_append':
                 f = lambda: obj.lst.append(x, callback=cb)
             elif kind == 'l_remove':
